@@ -286,9 +286,9 @@ struct SqpkFileOperationData {
 #[derive(PartialEq, Debug)]
 #[brw(big)]
 struct SqpkTargetInfo {
-    #[brw(pad_before = 3)]
-    #[brw(pad_size_to = 2)]
-    platform: Platform, // Platform is read as a u16, but the enum is u8
+    // Platform is stored as a big-endian u16, but the enum is u8: skip the (zero) high byte too
+    #[brw(pad_before = 4)]
+    platform: Platform,
     region: Region,
     #[br(map = read_bool_from::<u16>)]
     #[bw(map = write_bool_as::<u16>)]
